@@ -6,6 +6,7 @@ import (
 	"bytes"
 	"encoding/json"
 	"fmt"
+	"os"
 	"syscall"
 	"testing"
 	"verif/refs/sm3ref"
@@ -268,11 +269,51 @@ func TestVX_C13(t *testing.T) {
 	} // messages whose bit length (with the 32 bytes of ZA in front) crosses 2^32: thorough tier only (half a gigabyte is
 	// hashed three times per case). The message is untouched anonymous memory (all zero, costs no RAM); e comes from the
 	// streaming reference.
-	if vx.Thorough() {
+	// On a 32-bit target (the w32 part) the lengths at which a byte count shifted to a bit count inside an int wraps
+	// are 2^28 and 2^29 bytes: messages and ids of those lengths are given in one piece.
+	w32 := os.Getenv("VX_W32") != ""
+	if vx.Thorough() || w32 {
 		c13init()
 		k0 := c13keys[0]
+		// an id too long for ENTL is refused, however long: 2^28 and 2^29 bytes (bit lengths 2^31 and 2^32) and neighbours
+		for _, il := range []int{1 << 28, 1<<28 + 1, 1<<28 + 8191, 1 << 29, 1<<29 + 16, 3 << 28} {
+			n++
+			if !vx.MineIdx(n) {
+				continue
+			}
+			r.Eval(3)
+			cs := c13case{"id-huge", il, 0, 0, fmt.Sprintf("id%d", il)}
+			id, err := syscall.Mmap(-1, 0, il, syscall.PROT_READ, syscall.MAP_ANON|syscall.MAP_PRIVATE)
+			if err != nil {
+				r.NotExhaustive(fmt.Sprintf("no address space for an id of %d bytes", il))
+				continue
+			}
+			var zerr, serr, verr error
+			var zz []byte
+			kind, pm := vx.Try(func() {
+				zz, zerr = sm2.ZA(id, k0[1], k0[2])
+				_, _, serr = sm2.Sign(id, k0[1], k0[2], stream(b32(bi([]byte{0x42, 0x42}))), k0[0], []byte("m"))
+				_, verr = sm2.Verify(id, k0[1], k0[2], []byte("m"), b32(bigOne), b32(bigOne))
+			})
+			if kind != "" {
+				r.Violation("za:huge-id:panic", pm, cs)
+			} else {
+				if zerr == nil {
+					r.Violation("za:id-too-long-accepted:huge", fmt.Sprintf("ZA accepted an id of %d bytes (bit length %d does not fit ENTL) and returned %x", il, uint64(il)*8, zz), cs)
+				}
+				if serr == nil || verr == nil {
+					r.Violation("wrap:id-too-long-accepted:huge", fmt.Sprintf("Sign/Verify accepted an id of %d bytes: errors %v / %v", il, serr, verr), cs)
+				}
+			}
+			syscall.Munmap(id)
+			r.Shape("id-huge:" + cs.Shape)
+		}
 		za := vx.Fill("c13hugeza", 32)
-		for _, ml := range []int{1<<29 - 33, 1<<29 - 32, 1 << 29} {
+		mls := []int{1<<29 - 33, 1<<29 - 32, 1 << 29}
+		if w32 {
+			mls = []int{1<<28 - 33, 1<<28 - 1, 1 << 28, 1<<28 + 1}
+		}
+		for _, ml := range mls {
 			n++
 			if !vx.MineIdx(n) {
 				continue
